@@ -13,7 +13,7 @@ from ..devsim import SimDevice
 ID = "C13"
 LEVEL = "fault_enumeration"
 SHARDS = {"quick": 8, "thorough": 16}
-RULE = ("one valid response of each kind (state with CRC-8, state with additive check, capabilities, properties 0xB1 and 0xB0, "
+RULE = ("(overlap level: an apply() answered correctly and, 0.05..0.25 s later, a refresh() of the same client whose answers all arrive corrupted are outstanding at once; the client must end as in the run where the poll is not answered at all, offline and unsupported) one valid response of each kind (state with CRC-8, state with additive check, capabilities, properties 0xB1 and 0xB0, "
         "energy, humidity) produced by the model in state S1; faults: every position p>=1 x every substitute value without "
         "fix-up, and every body position except the check byte x every value with the outer checksum recomputed. Decoder level "
         "(exhaustive in both tiers): Response.construct must raise InvalidFrameException/InvalidResponseException iff the "
@@ -217,7 +217,81 @@ def check_mix(case: dict):
     return None
 
 
+def check_overlap(case: dict):
+    """Two requests of one client are outstanding at the same time: the user applies (answered correctly after 0.3 s) and 0.1 s later a
+    poll starts, all of whose answers arrive corrupted (reference run: are not answered at all).  Corrupted answers carry no
+    information: the client ends in the same state in both runs, and the poll leaves it offline and unsupported."""
+    import asyncio
+    from msmart.device import AirConditioner as AC
+    snaps = []
+    for reference in (False, True):
+        net = vloop.Net()
+        res = {}
+
+        async def main(loop, reference=reference):
+            m = RK.model(0)
+            dev = SimDevice(loop, version=2, device_id=3, ac=m)
+            net.listen("10.0.0.9", 6444, dev)
+            ac = AC(ip="10.0.0.9", port=6444, device_id=3)
+            await ac.get_capabilities()
+            if case.get("energy_explicit"):
+                ac.enable_energy_usage_requests = True
+            await ac.refresh()
+            res["ready"] = ac.online and ac.supported
+            dev.latency = 0.3
+            n = {"i": 0}
+
+            def hook(fr, p, outp):
+                if p.body[0] == 0x40:
+                    return outp                      # the state command is answered correctly
+                if reference:
+                    return []                        # the poll's queries go unanswered
+                out = []
+                for f in outp:
+                    n["i"] += 1
+                    c = _corrupt_frame(f, case["pos"] + n["i"], case["val"], case["fix"])
+                    if RK.is_valid(c):
+                        c = _corrupt_frame(f, len(f) - 1, f[-1] ^ 0x5A, False)
+                    out.extend([c] * case.get("copies", 1))
+                return out
+            m.response_hook = hook
+            ac.target_temperature = 30.0
+            ac.fan_speed = AC.FanSpeed.LOW
+            ac.power_state = True
+            t_apply = asyncio.ensure_future(ac.apply())
+            await asyncio.sleep(case.get("gap", 0.1))
+            t_poll = asyncio.ensure_future(ac.refresh())
+            try:
+                await t_apply
+                await t_poll
+            except Exception as e:
+                res["exc"] = e
+            res["after"] = RK.snapshot(ac)
+            res["online"], res["supported"] = ac.online, ac.supported
+            ac._lan._disconnect()
+
+        from .. import harness
+        with harness.strict_warnings(bool(case.get("strict"))):
+            vloop.run(main, net)
+        snaps.append(res)
+    got, ref = snaps
+    if not got["ready"] or not ref["ready"]:
+        return ("overlap/setup", "client did not come online against the good device")
+    if "exc" in ref:
+        return ("overlap/reference-raises", f"{ref['exc']!r} with unanswered poll queries")
+    if "exc" in got:
+        return (f"overlap/raises/{type(got['exc']).__name__}", f"{got['exc']!r} with an apply and a corrupted poll outstanding at once")
+    if got["after"] != ref["after"]:
+        diff = {k: (ref["after"][k], got["after"][k]) for k in ref["after"] if ref["after"][k] != got["after"][k]}
+        return ("overlap/state-changed", f"corrupted poll answers overlapping an apply changed state (unanswered poll, corrupted poll): {diff}")
+    if got["online"] or got["supported"]:
+        return ("overlap/online", f"a refresh that received only corrupted frames (while an apply was answered correctly) reports online={got['online']} supported={got['supported']}")
+    return None
+
+
 def check_case(case: dict):
+    if case.get("level") == "overlap":
+        return check_overlap(case)
     if case.get("level") == "mix":
         return check_mix(case)
     return check_stack(case) if case.get("level") == "stack" else check_decoder(case)
@@ -229,6 +303,10 @@ def replay(ctx, case):
 
 def _run_mix(ctx, case):
     import json
+    if case.get("level") == "overlap":
+        ctx.case(hash(json.dumps(case, sort_keys=True)), True, cls="overlap")
+        ctx.sample("overlap", case)
+        return check_overlap(case)
     ctx.case(hash(json.dumps(case, sort_keys=True)), True, cls="mix/" + "+".join(case["bad"]))
     if case.get("copies", 1) > 1:
         ctx.label("adjacent corrupted frames in one batch")
@@ -350,6 +428,17 @@ def run(ctx) -> None:
                                         "energy_explicit": x % 2 == 0, "strict": x % 3 == 0}
                                 ctx.check(case, lambda c: _run_mix(ctx, c))
     ctx.sweep("selective corruption: subsets of answer kinds x copies x fix-up x rounds x positions", x, True)
+    # an apply (answered correctly) and a poll (answered with corrupted frames only) outstanding at the same time
+    ov = 0
+    for pos in (10, 11, 13, 17, 21, 30):
+        for fix in (False, True):
+            for copies in (1, 2):
+                for gap in (0.05, 0.1, 0.25):
+                    ov += 1
+                    if ctx.mine(ov):
+                        case = {"level": "overlap", "pos": pos, "val": (pos * 41 + ov) & 0xFF, "fix": fix, "copies": copies, "gap": gap, "energy_explicit": ov % 2 == 0}
+                        ctx.check(case, lambda c: _run_mix(ctx, c))
+    ctx.sweep("apply answered correctly while a poll gets only corrupted answers: positions x fix-up x copies x gap", ov, True)
     mix = st.fixed_dictionaries({"level": st.just("mix"), "bad": st.lists(st.sampled_from(MIX_KINDS), min_size=1, max_size=4, unique=True).map(sorted),
                                  "copies": st.integers(1, 3), "fix": st.booleans(), "rounds": st.integers(1, 7), "pos": st.integers(0, 60), "val": st.integers(0, 255),
                                  "energy_explicit": st.booleans(), "strict": st.booleans()})
